@@ -24,6 +24,7 @@ How it is stated here.
   rows: MNTM acceptance test, agreement of the three classes).
 -/
 import AutomataVerif.Proofs.TMAgree
+import AutomataVerif.Proofs.TMLift
 import Batteries.Lean.Except
 
 namespace AV.Props.C03
@@ -337,6 +338,14 @@ theorem C03_mntm_rejects_iff (M : MNTM σ Γ) (hv : M.validate = .ok ()) (w : Li
 
 /-! ## one table, three classes -/
 
+/-- "The same table given as a nondeterministic machine, and the same table given as a one-tape
+multitape machine" exist whenever the deterministic machine does: a table the DTM constructor
+accepts is accepted by the NTM constructor (results as singleton sets) and by the MNTM
+constructor (`n_tapes = 1`, keys as 1-tuples, results as one-element lists of one move). -/
+theorem C03_lift_valid (M : DTM σ Γ) (hv : M.validate = .ok ()) :
+    M.asNTM.validate = .ok () ∧ M.asMNTM.validate = .ok () :=
+  ⟨M.asNTM_validate hv, M.asMNTM_validate hv⟩
+
 /-- The same deterministic table as DTM and as one-tape MNTM: the generators end the same way
 at every budget (so `accepts_input` agrees whenever it is decided), and the MNTM yields the
 same configurations. -/
@@ -397,6 +406,7 @@ def exD : DTM Nat Nat :=
     init := 0, blank := 9, finals := [2] }
 
 example : exD.validate = .ok () := by decide
+example : exD.asNTM.validate = .ok () ∧ exD.asMNTM.validate = .ok () := C03_lift_valid exD (by decide)
 example : (exD.readStepwise [0] 6).2 = .returned := by decide
 example : ((exD.readStepwise [0] 6).1.map fun c => (c.state, c.tape.cells, c.tape.pos)) =
     [(0, [0], 0), (0, [9, 9], 0), (1, [9, 0, 9], 0), (2, [9, 0, 9], 1)] := by decide
